@@ -480,3 +480,72 @@ func ReImage(xx []XPart, f func([]Part) []XPart) []XPart {
 	}
 	return out
 }
+
+// ImageReverse maps parts through the reversal of a sequence of length L:
+// residue x -> L-1-x, site g -> L-g, open ends swap sides, reading order
+// reverses (strand flags unchanged).  siteOffByOne applies the listed
+// deviation "mirrored site is one position low" (site g -> L-1-g).
+func ImageReverse(pp []Part, L int, siteOffByOne bool) []XPart {
+	out := make([]XPart, 0, len(pp))
+	for k := len(pp) - 1; k >= 0; k-- {
+		p := pp[k]
+		q := p
+		switch p.Kind {
+		case KSite:
+			g := L - p.Lo
+			if siteOffByOne {
+				g = L - 1 - p.Lo
+			}
+			q.Lo, q.Hi = g, g
+		case KPoint, KRange, KAmb:
+			q.Lo, q.Hi = L-p.Hi, L-p.Lo
+			q.OpenLo, q.OpenHi = p.OpenHi, p.OpenLo
+		}
+		out = append(out, XPart{Part: q, From: k})
+	}
+	return out
+}
+
+// ImageIdentity wraps parts unchanged.
+func ImageIdentity(pp []Part) []XPart {
+	out := make([]XPart, len(pp))
+	for k, p := range pp {
+		out[k] = XPart{Part: p, From: k}
+	}
+	return out
+}
+
+// Extract is the model of sequence extraction: the residues at the base
+// atoms of the parts in reading order, complemented by comp on the reverse
+// strand.
+func Extract(seq []byte, pp []Part, comp func(byte) byte) []byte {
+	var out []byte
+	for _, a := range Atoms(pp) {
+		if a.Site {
+			continue
+		}
+		if a.Pos < 0 || a.Pos >= len(seq) {
+			out = append(out, '?')
+			continue
+		}
+		b := seq[a.Pos]
+		if a.Rev {
+			b = comp(b)
+		}
+		out = append(out, b)
+	}
+	return out
+}
+
+// ComplementByte is the IUPAC complement table (written from the IUPAC
+// definition; U complements to A, A to T).
+func ComplementByte(b byte) byte {
+	const from = "ACGTURYKMBDHVSWNacgturykmbdhvswn"
+	const to = "TGCAAYRMKVHDBSWNtgcaayrmkvhdbswn"
+	for i := 0; i < len(from); i++ {
+		if from[i] == b {
+			return to[i]
+		}
+	}
+	return b
+}
